@@ -331,6 +331,19 @@ impl Profile {
                 force_opts: vec![("--mani-log-rollover-ratio", "3"), ("--sst-target-file-size", "4096"), ("--sst-minimum-file-size", "2048")],
                 ..base
             },
+            // Many versions of very few keys in small tables: a key's versions straddle two
+            // outputs of one compaction, so sibling tables share boundary keys.
+            "tree-straddle" => Profile {
+                name: "tree-straddle",
+                mode: Mode::Tree,
+                min_ops: 25,
+                max_ops: 90,
+                scans: true,
+                verify: false,
+                reopen: false,
+                force_opts: vec![("--sst-target-file-size", "4096"), ("--sst-minimum-file-size", "2048"), ("--gc-policy", "versions = 6")],
+                ..base
+            },
             "kvs-stall" => Profile {
                 name: "kvs-stall",
                 adversarial_thresholds: true,
@@ -655,7 +668,11 @@ fn big_batch(first_big: usize, keys: &[Vec<u8>], slack: u64) -> Op {
 /// Generate one history from a seed and a profile.
 pub fn generate(seed: u64, p: &Profile) -> History {
     let mut rng = Rng::new(crate::rng::mix(&[seed, crate::rng::str_seed(p.name)]));
-    let keys = key_universe(&mut rng);
+    let mut keys = key_universe(&mut rng);
+    if p.name == "tree-straddle" {
+        keys.retain(|k| k.len() < 64);
+        keys.truncate(3);
+    }
     let (opts, small_files) = gen_opts(&mut rng, p);
     let nops = rng.range(p.min_ops as u64, p.max_ops as u64) as usize;
     // Per-run op mix (swarm): weights for
